@@ -338,6 +338,19 @@ def run(prog, tier, seed):
         c01.own_rules(prog, tier, T) +
         T.results(T(c14.rule_k4, prog, adj) if adj else None),
         PROP, 'ownership / provenance of the returned states')
+    # the accessors every checker reads the structure through (labels of a
+    # state, labels of the whole structure, successors): an internal error
+    # there is an internal error of the query
+
+    def _accessors(prog):
+        r = c14.rule_k3(prog, adj)
+        # (the state None is a known finding of C14, recorded there)
+        r.findings = [f for f in r.findings
+                      if not f.key.endswith(':state-None')]
+        return r
+    if adj:
+        results = results + adopt(T.results(T(_accessors, prog)), PROP,
+                                  'the accessors the checkers read K through')
     # "states are strings, tuples or mixed types": a sort / ordering
     # comparison of states raises TypeError on such structures
     from . import c06
